@@ -139,6 +139,11 @@ def job_bc(kind, seed):
     for i in range(3):
         obs.append(rvc.identity('C02.%s/shift_j.%s' % (kind, CO[i]), F, 'bc(r_i, r_j + n.box) == bc(r_i, r_j) for every integer vector n', res3.g(i).v, res.g(i).v, seed))
         obs.append(rvc.identity('C02.%s/shift_i.%s' % (kind, CO[i]), F, 'bc(r_i + n.box, r_j) == bc(r_i, r_j) for every integer vector n', res4.g(i).v, res.g(i).v, seed))
+    # translation: bc depends on the two points only through their difference
+    tv = Mx.sym('t', 3)
+    res5 = run_bc(fn, box, a + tv, b + tv, rc)
+    for i in range(3):
+        obs.append(rvc.identity('C02.%s/translate.%s' % (kind, CO[i]), F, 'bc(r_i + t, r_j + t) == bc(r_i, r_j) for every translation t', res5.g(i).v, res.g(i).v, seed))
     if len(rc.calls) != 3:
         obs.append(Ob('C02.%s/lemma-instances' % kind, F, 'every round() call of the swapped / shifted runs is an instance of the oddness / integer-shift lemma', 'RVC', 'normal form', core.REFUTED, 0,
                       '%d unrelated round() arguments' % (len(rc.calls) - 3), witness={'calls': str(rc.calls[3:])[:300]}))
